@@ -672,7 +672,7 @@ int process_patch(const Options& options)
             const bool first_hunk_leaves_nothing = !patch.hunks.empty()
                 && patch.hunks.front().new_file_range.start_line == 0
                 && patch.hunks.front().new_file_range.number_of_lines == 0;
-            if (options.remove_empty_files == Options::OptionalBool::Yes && (patch.operation == Operation::Delete || first_hunk_leaves_nothing)) {
+            if (!result.was_skipped && options.remove_empty_files == Options::OptionalBool::Yes && (patch.operation == Operation::Delete || first_hunk_leaves_nothing)) {
                 if (tmp_out_file.size() == 0) {
                     if (!options.dry_run) {
                         // Moving the file to its backup already removes it.
